@@ -4,7 +4,7 @@ from __future__ import annotations
 import ast
 
 from sa.cfg import CFG
-from sa.model import AnalysisError, Program, norm
+from sa.model import AnalysisError, Program, norm, walk_no_nested
 from sa.report import Results
 from sa.util import assignments_to, callee, dotted, is_const, strip_not, parent_map, enclosing
 
@@ -48,6 +48,49 @@ def _tail_into_cases(fn: ast.FunctionDef) -> ast.FunctionDef:
                 del fn.body[i + 1:]  # unreachable now: every case (including the wildcard) leaves
             return fn
     return fn
+
+
+def _inline_status_helpers(prog: Program, mainf, fn: ast.FunctionDef) -> None:
+    """`return helper(<text>)` where a helper of the same module decides the exit status (every `return` of it is an integer
+    constant) is written out in place, so that the status and what was written before it are judged on one path"""
+    from sa import inline as _inl
+    names = {x.id for x in ast.walk(fn) if isinstance(x, ast.Name)} | {a.arg for a in ast.walk(fn) if isinstance(a, ast.arg)}
+
+    def status_helper(call):
+        if not (isinstance(call, ast.Call) and isinstance(call.func, ast.Name)):
+            return None
+        h = prog.funcs.get(call.func.id)
+        if h is None or h.module != mainf.module or h.parent is not None or h.cls:
+            return None
+        rets = [r for r in walk_no_nested(h.node) if isinstance(r, ast.Return)]
+        if not rets or not all(isinstance(r.value, ast.Constant) and isinstance(r.value.value, int) and not isinstance(r.value.value, bool) for r in rets):
+            return None
+        return h
+
+    def do(stmts):
+        out = []
+        for st in stmts:
+            for fld in ("body", "orelse", "finalbody"):
+                if isinstance(getattr(st, fld, None), list) and not isinstance(st, (ast.FunctionDef, ast.AsyncFunctionDef, ast.ClassDef)):
+                    setattr(st, fld, do(getattr(st, fld)))
+            if isinstance(st, ast.Match):
+                for c in st.cases:
+                    c.body = do(c.body)
+            if isinstance(st, ast.Try):
+                for h_ in st.handlers:
+                    h_.body = do(h_.body)
+            h = status_helper(st.value) if isinstance(st, ast.Return) else None
+            if h is not None:
+                try:
+                    out += _inl._inline_statement(st, _inl.Helper(h.key, h.module, h.node, "function", None), st.value, None, names)
+                    continue
+                except Exception:
+                    pass
+            out.append(st)
+        return out
+
+    fn.body = do(fn.body)
+    ast.fix_missing_locations(fn)
 
 
 def _split_or_cases(fn: ast.FunctionDef) -> None:
@@ -361,6 +404,7 @@ def run(prog: Program) -> Results:
     if mainf.module != MAIN:
         raise AnalysisError("main() moved out of cli/main.py")
     fn = _tail_into_cases(mainf.node)
+    _inline_status_helpers(prog, mainf, fn)
     res.analysed_functions |= {"main", "build_parser", "with_file_argument"}
     cfg = CFG(fn)
     match, cases = _cases(fn)
